@@ -804,6 +804,10 @@ func genHostileSignatures(b *baseScenario) []job {
 		"cert/bad-der":                  {{KeyID: b.leaf.Key.KeyID, Sig: goodSig.Sig, Certificate: string(pem.EncodeToMemory(&pem.Block{Type: "CERTIFICATE", Bytes: []byte{0x30, 0x03, 1, 2, 3}}))}},
 		"cert/is-public-key":            {{KeyID: kp.Pub.KeyID, Sig: goodSig.Sig, Certificate: string(kp.PubPEM)}},
 		"cert/is-private-key":           {{KeyID: kp.Pub.KeyID, Sig: goodSig.Sig, Certificate: string(kp.PrivPEM)}},
+		// ... of keys the step does not list (the certificate route is taken): the field holds a key, not a certificate
+		"cert/is-public-key-of-outsider-rsa":   {{KeyID: pool("rsa2048").Pub.KeyID, Sig: goodSig.Sig, Certificate: string(pool("rsa2048").PubPEM)}},
+		"cert/is-public-key-of-outsider-ecdsa": {{KeyID: pool("ecdsa256").Pub.KeyID, Sig: goodSig.Sig, Certificate: string(pool("ecdsa256").PubPEM)}},
+		"cert/is-private-key-of-outsider":      {{KeyID: pool("ecdsa256").Pub.KeyID, Sig: goodSig.Sig, Certificate: string(pool("ecdsa256").PrivPEM)}},
 		"cert/ca-as-leaf":               {{KeyID: b.ca.Key.KeyID, Sig: goodSig.Sig, Certificate: caCert}},
 		"cert/ed25519-leaf":             {{KeyID: edCertLeaf.Key.KeyID, Sig: goodSig.Sig, Certificate: edCertLeaf.Key.KeyVal.Certificate}},
 		"cert/rsa-leaf-bad-sig":         {{KeyID: rsaCertLeaf.Key.KeyID, Sig: goodSig.Sig, Certificate: rsaCertLeaf.Key.KeyVal.Certificate}},
